@@ -216,6 +216,20 @@ class Entry:
             if fn.path in seen or depth > 3:
                 return
             seen.add(fn.path)
+            # direct writes / mutable borrows of a Beatmap field inside the entry itself count as preprocessing too
+            for bi, b in enumerate(fn.blocks):
+                if b['cleanup']:
+                    continue
+                for s_ in b['s']:
+                    if s_['k'] != 'assign':
+                        continue
+                    hits = [e.get('f') for e in s_['p'].get('proj', []) if isinstance(e, dict) and e.get('adt') == BEATMAP]
+                    rv = s_['rv']
+                    if rv['k'] in ('ref', 'rawptr') and rv.get('bk') in ('mut', 'Mut'):
+                        hits += [e.get('f') for e in rv['p'].get('proj', []) if isinstance(e, dict) and e.get('adt') == BEATMAP]
+                    for f_ in hits:
+                        gs = outer_guards + [(prov.show(strip_guard(c), maxdepth=5), lab) for c, lab in arms.guards_of(fn, bi)]
+                        self.preprocessors.append(('<direct mutation of Beatmap.%s>' % f_, tuple(gs), fn, bi))
             for bi, t in fn.calls():
                 p = callee_path(t)
                 if p in (CONVERT_REF, CONVERT_MUT) or not t['func'].get('local'):
